@@ -135,7 +135,7 @@ class ProjectData(sc.prettyobj):
 
         self.tvec = sc.promotetoarray(tvec).copy()
         for table in self.tables():
-            table.tvec = tvec
+            table.tvec = self.tvec.copy()
 
     def get_ts(self, name: str, key=None):
         """
